@@ -48,34 +48,78 @@ PathText(pa) == IF pa.class = "absent" THEN "" ELSE "/" \o pa.text
 
 Seps == {"@", "?"}
 
-\* reference: micro-degrees are the data, the decimal text is derived from them
+\* reference: micro-degrees are the data, the decimal text is derived from them.
+\* A 'lat,lon' reference is spelled with dlat / dlon decimals (0 = an integer, "45,5"; the
+\* documentation writes `43.3,1.35`), which is exact only when the micro-degrees are a
+\* multiple of 10^(6-d).  The spellings cover texts of 3 to 12 characters and more.
 AirportCodes == {"LFBO", "EHAM"}
-LatLons == { <<43500000, 1500000>>, <<51470000, -461000>>, <<-33946110, 151177222>> }
-Refs == { [class |-> "absent", text |-> "", lat |-> 0, lon |-> 0],
-          [class |-> "empty",  text |-> "", lat |-> 0, lon |-> 0],
-          [class |-> "number", text |-> "43.5", lat |-> 0, lon |-> 0],
-          [class |-> "regex",  text |-> "(", lat |-> 0, lon |-> 0],
-          [class |-> "regex",  text |-> "+43.5,1.5", lat |-> 0, lon |-> 0] }
-        \cup { [class |-> "airport", text |-> c, lat |-> 0, lon |-> 0] : c \in AirportCodes }
-        \cup { [class |-> "latlon", text |-> "", lat |-> ll[1], lon |-> ll[2]] : ll \in LatLons }
+Ref(c, txt) == [class |-> c, text |-> txt, lat |-> 0, lon |-> 0, dlat |-> 0, dlon |-> 0]
+LL(c, la, lo, da, do) == [class |-> c, text |-> "", lat |-> la, lon |-> lo, dlat |-> da, dlon |-> do]
+CoreLatLons == { LL("latlon", 43500000, 1500000, 6, 6), LL("latlon", 51470000, -461000, 6, 6),
+                 LL("latlon", -33946110, 151177222, 6, 6) }
+CoreRefs == { Ref("absent", ""), Ref("empty", ""), Ref("number", "43.5"), Ref("regex", "("),
+              Ref("regex", "+43.5,1.5") }
+            \cup { Ref("airport", c) : c \in AirportCodes }
+            \cup CoreLatLons
+\* other spellings of 'lat,lon' (and, for totality only, a space after the comma, which the
+\* documentation does not present)
+SpellRefs == { LL("latlon", 0, 0, 0, 0),                    \* "0,0"
+               LL("latlon", 45000000, 5000000, 0, 0),       \* "45,5"
+               LL("latlon", -5000000, 3000000, 0, 0),       \* "-5,3"
+               LL("latlon", 1000000, 10000000, 0, 0),       \* "1,10"
+               LL("latlon", 0, 12000000, 0, 0),             \* "0,12"
+               LL("latlon", 89000000, 0, 0, 0),             \* "89,0"
+               LL("latlon", 1000000, 2500000, 0, 1),        \* "1,2.5"
+               LL("latlon", -5500000, 3000000, 1, 0),       \* "-5.5,3"
+               LL("latlon", -33000000, 151000000, 0, 0),    \* "-33,151"
+               LL("latlon", 43600000, 1400000, 1, 1),       \* "43.6,1.4"
+               LL("latlon", 43300000, 1350000, 1, 2),       \* "43.3,1.35" (jet1090 --help)
+               LL("latlon", -33950000, 151000000, 2, 0),    \* "-33.95,151"
+               LL("latlon", -33900000, 151200000, 1, 1),    \* "-33.9,151.2"
+               LL("latlon", 51470000, -461000, 2, 3),       \* "51.47,-0.461"
+               LL("latlon", 43599318, 1436247, 6, 6),       \* "43.599318,1.436247"
+               LL("latlon_space", 43500000, 1500000, 1, 1), \* "43.5, 1.5"
+               LL("latlon_space", 45000000, 5000000, 0, 0) }\* "45, 5"
+Refs == CoreRefs \cup SpellRefs
 
 Abs(x) == IF x < 0 THEN -x ELSE x
-Pad6(f) == SubSeq("000000", 1, 6 - Len(ToString(f))) \o ToString(f)
-\* decimal degrees with six decimals, e.g. -461000 -> "-0.461000"
-DecStr(u) == (IF u < 0 THEN "-" ELSE "") \o ToString(Abs(u) \div 1000000) \o "."
-             \o Pad6(Abs(u) % 1000000)
-RefText(r) == IF r.class = "latlon" THEN DecStr(r.lat) \o "," \o DecStr(r.lon) ELSE r.text
+Pow10(k) == CASE k = 0 -> 1 [] k = 1 -> 10 [] k = 2 -> 100 [] k = 3 -> 1000 [] k = 4 -> 10000
+              [] k = 5 -> 100000 [] OTHER -> 1000000
+PadK(f, k) == SubSeq("000000", 1, k - Len(ToString(f))) \o ToString(f)
+\* decimal degrees with k decimals, e.g. DecK(-461000, 3) = "-0.461", DecK(45000000, 0) = "45"
+DecK(u, k) == (IF u < 0 THEN "-" ELSE "") \o ToString(Abs(u) \div 1000000)
+              \o (IF k = 0 THEN "" ELSE "." \o PadK((Abs(u) % 1000000) \div Pow10(6 - k), k))
+ExactK(u, k) == k \in 0..6 /\ Abs(u) % Pow10(6 - k) = 0     \* the spelling loses nothing
+DecStr(u) == DecK(u, 6)
+RefText(r) == CASE r.class = "latlon" -> DecK(r.lat, r.dlat) \o "," \o DecK(r.lon, r.dlon)
+                [] r.class = "latlon_space" -> DecK(r.lat, r.dlat) \o ", " \o DecK(r.lon, r.dlon)
+                [] OTHER -> r.text
 
-\* every combination of parts (the separator is immaterial without a reference and the
-\* slashes without a scheme: one representative each).  Built constructively: TLC caches
-\* the enumerated set, whereas a filtered set would be re-filtered at every use.
+\* the frame: everything but the reference
 SchemeForms == {<<"none", FALSE>>} \cup ((Schemes \ {"none"}) \X BOOLEAN)
-SepRefs == { [sep |-> "@", ref |-> r] : r \in {x \in Refs : x.class = "absent"} }
-           \cup { [sep |-> sp, ref |-> r] : sp \in Seps, r \in {x \in Refs : x.class # "absent"} }
-Parts ==
-  { [scheme |-> ks[1], slashes |-> ks[2], host |-> h, port |-> pt, path |-> pa,
-     sep |-> sr.sep, ref |-> sr.ref] :
-      ks \in SchemeForms, h \in Hosts, pt \in Ports, pa \in Paths, sr \in SepRefs }
+Frames == { [scheme |-> ks[1], slashes |-> ks[2], host |-> h, port |-> pt, path |-> pa] :
+              ks \in SchemeForms, h \in Hosts, pt \in Ports, pa \in Paths }
+FrameWellFormed(p) ==
+  /\ p.scheme \in {"tcp", "udp", "ws", "rtlsdr"}
+  /\ p.slashes
+  /\ IF p.scheme = "rtlsdr"
+     THEN /\ p.host.class \in {"absent", "device"}
+          /\ p.port.class = "absent"
+          /\ p.path.class = "absent"
+     ELSE /\ p.host.class \in {"name", "ipv4"}
+          /\ PortValid(p.port)
+          /\ (p.path.class = "present" => p.scheme = "ws")
+SepRefsOf(rs) == { [sep |-> "@", ref |-> r] : r \in {x \in rs : x.class = "absent"} }
+                 \cup { [sep |-> sp, ref |-> r] : sp \in Seps, r \in {x \in rs : x.class # "absent"} }
+Mk(f, sr) == [scheme |-> f.scheme, slashes |-> f.slashes, host |-> f.host, port |-> f.port,
+              path |-> f.path, sep |-> sr.sep, ref |-> sr.ref]
+\* ALL combinations of frame, separator and core reference (the separator is immaterial
+\* without a reference and the slashes without a scheme: one representative each), and the
+\* other spellings of 'lat,lon' with every well-formed frame and every scheme-less frame.
+\* Built constructively (TLC would re-filter a filtered set at every use).
+SpellFrames == { f \in Frames : FrameWellFormed(f) \/ (f.scheme = "none" /\ f.path.class = "absent") }
+Parts == { Mk(f, sr) : f \in Frames, sr \in SepRefsOf(CoreRefs) }
+         \cup { Mk(f, sr) : f \in SpellFrames, sr \in SepRefsOf(SpellRefs) }
 
 \* -------------------------------------------------------------- rendering
 Prefix(p) == IF p.scheme = "none" THEN ""
@@ -84,18 +128,10 @@ RefSuffix(p) == IF p.ref.class = "absent" THEN "" ELSE p.sep \o RefText(p.ref)
 Render(p) == Prefix(p) \o p.host.text \o PortText(p.port) \o PathText(p.path) \o RefSuffix(p)
 
 \* ----------------------------------------------------------- well-formed
-RefWellFormed(r) == r.class \in {"absent", "airport", "latlon"}
-WellFormed(p) ==
-  /\ p.scheme \in {"tcp", "udp", "ws", "rtlsdr"}
-  /\ p.slashes
-  /\ RefWellFormed(p.ref)
-  /\ IF p.scheme = "rtlsdr"
-     THEN /\ p.host.class \in {"absent", "device"}
-          /\ p.port.class = "absent"
-          /\ p.path.class = "absent"
-     ELSE /\ p.host.class \in {"name", "ipv4"}
-          /\ PortValid(p.port)
-          /\ (p.path.class = "present" => p.scheme = "ws")
+RefWellFormed(r) ==
+  \/ r.class \in {"absent", "airport"}
+  \/ r.class = "latlon" /\ ExactK(r.lat, r.dlat) /\ ExactK(r.lon, r.dlon)
+WellFormed(p) == FrameWellFormed(p) /\ RefWellFormed(p.ref)
 
 \* --------------------------------------------- what well-formed parts denote
 Kind(p) == IF p.scheme = "ws" THEN "websocket" ELSE p.scheme     \* key of the table form
@@ -181,6 +217,12 @@ Anchors ==
   /\ \E p \in Parts : ~WellFormed(p) /\ Render(p) = "tcp://"
   /\ \E p \in Parts : ~WellFormed(p) /\ Render(p) = "@"
   /\ \E p \in Parts : ~WellFormed(p) /\ Render(p) = "tcp://localhost:1@("
+  /\ \E p \in Parts : WellFormed(p) /\ Render(p) = "tcp://localhost:1@45,5"
+  /\ \E p \in Parts : WellFormed(p) /\ Render(p) = "udp://192.168.0.20:65535?43.3,1.35"
+  /\ \E p \in Parts : ~WellFormed(p) /\ Render(p) = "tcp://localhost:1@43.5, 1.5"
+  /\ {Len(RefText(r)) : r \in {x \in Refs : x.class = "latlon"}} \supseteq 3..12
+  /\ \A r \in Refs : r.class = "latlon" => RefWellFormed(r)
+  /\ DecK(45000000, 0) = "45" /\ DecK(-461000, 3) = "-0.461" /\ DecK(0, 0) = "0" /\ DecK(1350000, 2) = "1.35"
   /\ DecStr(-33946110) = "-33.946110" /\ DecStr(1500000) = "1.500000" /\ DecStr(-461000) = "-0.461000"
   /\ IcaoText(<<76, 70, 66, 79>>) = "LFBO"
 =============================================================================
